@@ -314,6 +314,7 @@ class Ctx:
             goal = z3.BoolVal(goal)
         ob = Obligation(name, self.pc, goal, self.path_label, kind, meta)
         ob.meta.setdefault("decisions", list(self.decisions))
+        ob.meta.setdefault("branch_log", [(l, d) for l, d in self.branch_log])
         self.obligations.append(ob)
         self.assume(goal)
         if not self.feasible():
